@@ -218,6 +218,16 @@ def c01_catalogue(quick):
               U(4, path='/other/p4', outside=1), U(5, path='/docs-old/p5', outside=1)]
     np_sub[0]['links'].append(dict(to=5))
     out.append(scenario('noparent-subdir-start', np_sub, dict(noparent=1), N=1))
+    # <base href> belongs to the document that declares it: a later document without one resolves against its own URL
+    # (the document with the <base> links to the plain one, so it is necessarily scraped first)
+    bs = [U(1, links=[2]), U(2, path='/d1/p2', base='http://a.test/other/', links=[dict(to=4, spelling='x.html'), 3, 7]),
+          U(3, path='/d2/p3', links=[dict(to=5, spelling='y.html'), dict(to=6, spelling='../z.html')]),
+          U(4, path='/other/x.html'), U(5, path='/d2/y.html'), U(6, path='/z.html'), U(7, path='/other/')]
+    out.append(scenario('base-href-then-plain-document', bs, N=1))
+    # a redirect chain exactly as long as --max-redirect is followed to its end
+    for R in (1, 3):
+        ch = [U(1, links=[2])] + [U(i, kind='redirect', rto=i + 1) for i in range(2, 2 + R)] + [U(2 + R, links=[3 + R]), U(3 + R)]
+        out.append(scenario('redirect-chain-exactly-the-limit-R%d' % R, ch, dict(maxredir=R), N=1))
     # suffix lists: -R jpg rejects names ending in "jpg", not names ending in one of its letters; -A likewise
     suf = [U(1, links=[2, 3, 4, 5, 6]), U(2, path='/pic.jpg', rejected=1), U(3, path='/big'), U(4, path='/top'), U(5, path='/log.j'),
            U(6, path='/dir.jpg/page')]
